@@ -578,6 +578,7 @@ package rosmar
 //@   ensures [C04,C10:OpenBucket.reseeds-clock] count("call:registerBucket") == 1 ==> count("call:Bucket.getLastTimestamp") == 1 && count("call:HybridLogicalClock.updateLatestTime") == 1 && callpos("HybridLogicalClock.updateLatestTime") < callpos("registerBucket") && callarg("HybridLogicalClock.updateLatestTime", 0) == hlc
 //@   ensures [C10:OpenBucket.schema-once]      count("call:registerBucket") == 1 ==> (scanned(0) == 0 <==> count("call:Bucket.initializeSchema") == 1)
 //@   ensures [C10,C14:OpenBucket.rearms-expiry] err == nil && count("call:registerBucket") == 1 ==> (scanned(0) != 0 <==> count("call:Bucket._scheduleExpiration") == 1)
+//@   ensures [C10,C13:OpenBucket.deletes-only-what-it-created] count("call:Bucket.CloseAndDelete") >= 1 ==> count("call:Bucket.initializeSchema") == 1
 //@   ensures [C20:OpenBucket.unlocked]         any: nolocks()
 // The facts of schema.sql and of the SQLite connection string that the SQL semantics and the isolation / atomicity
 // arguments rest on (they are assumptions of every other proof; here they are checked against the tree):
